@@ -16,6 +16,7 @@ package main
 import (
 	"fmt"
 	"go/types"
+	"sort"
 	"strings"
 
 	"golang.org/x/tools/go/ssa"
@@ -594,11 +595,55 @@ var (
 	maxResumes   = 2
 )
 
+// forCase: the loop tables, and — if the loop keeps bookkeeping of its own in the coroutine state, which all
+// terms of one run share — the same tables once more with a body that changes that bookkeeping before it
+// suspends or completes: the body of a loop may contain a loop of the same kind (nested loops), which writes the
+// same fields. (The frame condition "an opaque Seq argument only replaces c.step" would otherwise be unsound for
+// exactly the fields the combinators themselves write.)
+// The nested loop leaves in such a field one of the values the loop code stores there (or leaves it alone): this
+// is enumerable when those values are constants (flags); a field holding computed values (a counter, a stamp) is
+// not modelled here — arbitrary values would be unsound the other way (a stamp only ever grows).
 func (s *seqRT) forCase(fc forCase, roles *sigRoles) {
+	if w := s.forCaseW(fc, roles, nil); len(w) > 0 {
+		s.forCaseW(fc, roles, w)
+	}
+}
+
+func (s *seqRT) forCaseW(fc forCase, roles *sigRoles, havoc map[string][]AV) (written map[string][]AV) {
 	c := s.c
 	fn := s.w.Func(pathSeq, fc.ctor)
 	pos := s.w.FnPos(fn)
 	construct := fmt.Sprintf("%s[cond=%s,post=%s]", fc.ctor, nilStr(fc.condNil), nilStr(fc.postNil))
+	// the assignments a nested loop can leave behind: per field one of its stored constants, or untouched
+	type leave struct {
+		label string
+		do    func(st *State)
+	}
+	leaves := []leave{{"", nil}}
+	if len(havoc) > 0 {
+		var keys []string
+		for k := range havoc {
+			keys = append(keys, k)
+		}
+		sort.Strings(keys)
+		construct += " (body containing a loop: it changes " + strings.Join(keys, ", ") + ")"
+		for _, key := range keys {
+			var next []leave
+			for _, l := range leaves {
+				next = append(next, l) // untouched
+				for _, v := range havoc[key] {
+					key, v, prev := key, v, l.do
+					next = append(next, leave{l.label + " " + key + "=" + v.String(), func(st *State) {
+						if prev != nil {
+							prev(st)
+						}
+						st.symMem[key] = v
+					}})
+				}
+			}
+			leaves = next
+		}
+	}
 	var cond, post AV = Sym{Name: "cond", NN: true}, Sym{Name: "post", NN: true}
 	if fc.condNil {
 		cond = Nil{}
@@ -637,10 +682,13 @@ func (s *seqRT) forCase(fc forCase, roles *sigRoles) {
 					n++
 				}
 			}
-			ans := []Answer{{Label: "suspend"}}
-			if n < maxBodyCalls && len(cc.Args) == 2 {
-				for _, name := range roles.names {
-					ans = append(ans, Answer{Label: "sync:" + name, Invoke: []Invocation{{Fn: cc.Args[1], Args: []AV{roles.byName[name], Sym{Name: "v"}}}}})
+			var ans []Answer
+			for _, l := range leaves {
+				ans = append(ans, Answer{Label: "suspend" + l.label, Do: l.do})
+				if n < maxBodyCalls && len(cc.Args) == 2 {
+					for _, name := range roles.names {
+						ans = append(ans, Answer{Label: "sync:" + name + l.label, Do: l.do, Invoke: []Invocation{{Fn: cc.Args[1], Args: []AV{roles.byName[name], Sym{Name: "v"}}}}})
+					}
 				}
 			}
 			return ans
@@ -649,7 +697,7 @@ func (s *seqRT) forCase(fc forCase, roles *sigRoles) {
 	}
 	seq, st, ok := s.construct(in, "SEQ.FOR", fc.ctor, args)
 	if !ok {
-		return
+		return nil
 	}
 	type item struct {
 		st      *State
@@ -745,6 +793,35 @@ func (s *seqRT) forCase(fc forCase, roles *sigRoles) {
 	if total < 5 {
 		c.und("SEQ.FOR", construct+" coverage", pos, fmt.Sprintf("only %d traces explored", total))
 	}
+	// the bookkeeping the loop itself keeps in the shared coroutine state
+	written = map[string][]AV{}
+	computed := map[string]bool{}
+	for _, f := range finals {
+		for _, e := range f.Events[len(st.Events):] {
+			if e.Kind != "store" || !strings.HasPrefix(e.Target, "c.") || e.Target == "c.step" || len(e.Args) != 1 {
+				continue
+			}
+			switch e.Args[0].(type) {
+			case Const, Zero:
+				dup := false
+				for _, v := range written[e.Target] {
+					dup = dup || sameAV(v, e.Args[0])
+				}
+				if !dup {
+					written[e.Target] = append(written[e.Target], e.Args[0])
+				}
+			default:
+				computed[e.Target] = true
+			}
+		}
+	}
+	for k := range computed {
+		delete(written, k)
+		if len(havoc) == 0 {
+			c.ok("SEQ.FOR", construct+" bookkeeping "+k, pos, "the loop keeps computed values (a counter, a stamp) in the shared coroutine state: the run with a body that contains a loop of its own is not modelled for this field (done for fields holding constants only)")
+		}
+	}
+	return written
 }
 
 func nilStr(b bool) string {
